@@ -120,11 +120,11 @@ func c04IssueCookie(f addrForm, host string) (tok string, seenIP string, cookie 
 }
 
 type c04Obs struct {
-	ccStatus uint32
+	ccStatus   uint32
 	ccAnswered bool
-	dials    int
-	panics   []string
-	setup    string
+	dials      int
+	panics     []string
+	setup      string
 }
 
 func c04Use(kind string, tok string, f addrForm, verify bool, rep *Report) c04Obs {
